@@ -49,7 +49,13 @@ OutcomeFollowsVotes(pre, post, votes) ==
   \A p \in DOMAIN pre : (Rank(pre[p]) = 2 /\ p \in DOMAIN post /\ Rank(post[p]) = 3 /\ p \in DOMAIN votes) =>
       /\ (post[p].store = "Passed" => Passes(votes[p], pre[p].passPct))
       /\ (post[p].outcome = OutNo => Fails(votes[p], pre[p].passPct))
-(* the recorded votes decide: a proposal is not left in voting once its recorded votes make it pass or fail *)
+(* the recorded votes decide: a proposal whose recorded votes make it pass or fail does not end as "expired for lack of   *)
+(* votes" (ExpiredOnlyIfUndecided, evaluated on executions); the model decides in the vote step, so there it also holds  *)
+(* that no proposal is left in voting once its votes decide (DecidedAsVotesSay, an invariant of the model only: an        *)
+(* implementation that decided later, at the deadline, would still follow the votes)                                    *)
+ExpiredOnlyIfUndecided(pre, post, votes) ==
+  \A p \in DOMAIN pre : (Rank(pre[p]) = 2 /\ p \in DOMAIN post /\ post[p].outcome = OutInsufficientVotes /\ p \in DOMAIN votes)
+      => (~Passes(votes[p], pre[p].passPct) /\ ~Fails(votes[p], pre[p].passPct))
 DecidedAsVotesSay(post, votes) ==
   \A p \in DOMAIN post : (Rank(post[p]) = 2 /\ p \in DOMAIN votes) => (~Passes(votes[p], post[p].passPct) /\ ~Fails(votes[p], post[p].passPct))
 VotingOnlyWhenGoalMet(pre, post, fundT, h) ==
@@ -106,5 +112,6 @@ PropForwardOnly == [][ForwardOnly(pr, pr')]_gvars
 PropExpireAfterDeadline == [][ExpireOnlyAfterDeadline(pr, pr', hh)]_gvars
 PropOutcomeFollowsVotes == [][OutcomeFollowsVotes(pr, pr', vt')]_gvars
 InvDecidedAsVotesSay == DecidedAsVotesSay(pr, vt)
+PropExpiredOnlyIfUndecided == [][ExpiredOnlyIfUndecided(pr, pr', vt')]_gvars
 InvAppliedOnce == \A p \in Props : applied[p] <= 1 /\ (applied[p] = 1 => pr[p].outcome = OutYes)
 =============================================================================
